@@ -38,7 +38,9 @@ PROPS = {
     "C03": {"level": "exploration", "runs": [run("controller", "TestVerif_C03", shards=(4, 16), files=["box", "shared"])],
             "thresholds": {"quick": {"innocent-service-windows": 3000, "innocent-service-windows-with-foreign-events": 2000, "resyncs-checked-for-zero-writes": 100}},
             "assumptions": ["the box reproduces controller-runtime semantics that matter (per-reconciler queues with de-duplication, one worker each, error -> retry, reload key) and the API server's optimistic concurrency on status writes; MetalLB-internal map iteration order is not controlled, so a replay may take another but equally valid path", "the reference model of allocation rules is written from the property statements (harness/lib/allocmodel.go)"]},
-    "C04": {"level": "exploration", "runs": [run("speaker", "TestVerif_C04", shards=(4, 16), files=["c04", "direct", "shared"])]},
+    "C04": {"level": "exploration", "runs": [run("speaker", "TestVerif_C04", shards=(4, 16), files=["c04", "direct", "shared"])],
+            "thresholds": {"quick": {"views-eligible-2+": 70000, "views-eligible-0": 300000, "views-eligible-1": 150000, "sibling-services-both-elect": 90000}},
+            "assumptions": ["the view (nodes, speaker list, pool advertisements, endpoint slices) is an input; memberlist itself is not exercised", "exhaustive only for the bounded space named in DESIGN C04 (thorough tier)"]},
     "C05": {"level": "exploration", "runs": [run("speaker", "TestVerif_C05", shards=(4, 16), files=["sbox", "shared"])]},
     "C06": {"level": "fault_enumeration", "runs": [run("controller", "TestVerif_C06", shards=(4, 16), files=["box", "shared"])],
             "thresholds": {"quick": {"crashes-executed": 150, "crash-kind:before-status-write": 15, "crash-kind:after-status-write": 15, "crash-kind:in-service-reconcile": 60, "crash-kind:in-pool-reconcile": 25, "failed-writes-injected": 300, "recorded-services-that-must-keep-their-addresses": 90}},
@@ -55,17 +57,25 @@ PROPS = {
                         "only accepted configurations are judged; over-rejection is never reported"],
     },
     "C09": {"level": "exploration", "runs": [run("speaker", "TestVerif_C09", shards=(4, 16), files=["sbox", "shared"])]},
-    "C10": {"level": "exploration", "runs": [run("speaker", "TestVerif_C10", shards=(4, 16), files=["c10", "direct", "shared"])]},
+    "C10": {"level": "exploration", "runs": [run("speaker", "TestVerif_C10", shards=(4, 16), files=["c10", "direct", "shared"])],
+            "thresholds": {"quick": {"decision:announce:Cluster": 120000, "decision:announce:Local": 80000, "decision:refuse:noLocalEndpoints": 70000, "decision:refuse:nodeLabeledExcludeBalancers": 100000, "layouts-with-conflicting-repeated-address": 600000}},
+            "assumptions": ["under the Local policy the same endpoint address on different nodes with conflicting conditions is ambiguous in the statement: counted, not judged"]},
     "C11": {"level": "exploration", "runs": [run("allocator", "TestVerif_C11", shards=(4, 16), files=["alloc", "shared"]),
                                              run("controller", "TestVerif_C11", shards=(4, 16), files=["box", "shared"])],
             "thresholds": {"quick": {"releases-probed": 1800, "rebuild-compared-with-shared-address": 1500, "counter-checks:astronomical-ipv6+other": 1500, "counter-checks:single-buggy-address": 3000, "counter-checks:tiny-block": 20000}},
             "assumptions": ["the box reproduces controller-runtime semantics that matter (per-reconciler queues with de-duplication, one worker each, error -> retry, reload key) and the API server's optimistic concurrency on status writes; MetalLB-internal map iteration order is not controlled, so a replay may take another but equally valid path", "the reference model of allocation rules is written from the property statements (harness/lib/allocmodel.go)"]},
-    "C12": {"level": "exploration", "runs": [run("speaker", "TestVerif_C12", shards=(4, 16), files=["c12", "direct", "shared"])]},
+    "C12": {"level": "exploration", "runs": [run("speaker", "TestVerif_C12", shards=(4, 16), files=["c12", "direct", "shared"])],
+            "thresholds": {"quick": {"announcer-changed:owner-loss": 25000, "announcer-changed:newcomer-wins": 16000, "announcer-kept": 50000, "removal:speaker-death": 5000, "removal:lost-local-endpoint": 5000, "permutations-compared": 17000}},
+            "assumptions": ["the argmin clause (sha256 of node#address) is taken from the mechanism anchor and the layer-2 concept documentation"]},
     "C13": {"level": "exploration", "runs": [run("layer2", "TestVerif_C13", race=True, shards=(4, 16))],
             "thresholds": {"quick": {"contended-operations": 10000, "contended-requests": 3500, "histories-with-contended-request": 1400, "frames-captured": 34000}},
             "assumptions": ["porcupine v1.3.0 decides linearizability of the recorded histories; the sequential model is the harness's own", "NDP is covered through the shouldAnnounce decision only (no real ndpResponder on a sandbox interface)"]},
-    "C14": {"level": "translation_validation", "runs": [run("frr", "TestVerif_C14", shards=(4, 16), files=["c14", "shared"])]},
-    "C15": {"level": "translation_validation", "runs": [run("frrk8s", "TestVerif_C15", shards=(4, 16))]},
+    "C14": {"level": "translation_validation", "runs": [run("frr", "TestVerif_C14", shards=(4, 16), files=["c14", "shared"])],
+            "thresholds": {"quick": {"programs": 1400, "programs-2+-neighbors-disjoint-requests": 400, "must-deny-evaluations": 4000, "merged-duplicates": 2000, "order-permutations-compared": 5000}},
+            "assumptions": ["trusted base: the harness's reading of FRR route-map / prefix-list / network semantics (harness/lib/frrinterp.go, written from the FRR documentation); no FRR binary is available", "community lists are passed sorted, as the speaker does"]},
+    "C15": {"level": "translation_validation", "runs": [run("frrk8s", "TestVerif_C15", shards=(4, 16))],
+            "thresholds": {"quick": {"programs": 1400, "programs-2+-neighbors-disjoint-requests": 400, "must-deny-evaluations": 4000, "merged-duplicates": 2000, "order-permutations-compared": 5000, "crosscheck-programs": 1400}},
+            "assumptions": ["SourceAddress propagation is not demanded (the golden files pin its absence)", "cross-check against the C14 interpretation of the FRR text rendered from the same sessions"]},
     "C16": {"level": "exploration", "runs": [run("native", "TestVerif_C16", shards=(4, 16), files=["c16", "shared"])]},
     "C17": {"level": "fault_enumeration", "runs": [run("native", "TestVerif_C17", race=True, shards=(4, 16), files=["c17", "shared"])]},
     "C18": {"level": "exploration", "runs": [run("controllers", "TestVerif_C18", shards=(4, 16))],
